@@ -42,19 +42,20 @@ func (c c18Conf) String() string {
 }
 
 type c18Op struct {
-	Kind   string  `json:"k"`                // q | adv | clear
-	Addr   int     `json:"a,omitempty"`      // index into c18Addrs
-	Port   uint16  `json:"p,omitempty"`      //
-	Live   bool    `json:"live,omitempty"`   // verdict the probe returns if the host is probed at this moment
-	ErrK   int     `json:"e,omitempty"`      // which realistic error value accompanies the verdict
-	DeltaS int64   `json:"d,omitempty"`      // adv: seconds
-	Nested []c18Op `json:"nested,omitempty"` // operations that happen while this query's probe is in flight
+	Kind    string  `json:"k"`                // q | adv | clear
+	Addr    int     `json:"a,omitempty"`      // index into c18Addrs
+	Port    uint16  `json:"p,omitempty"`      //
+	Live    bool    `json:"live,omitempty"`   // verdict the probe returns if the host is probed at this moment
+	ErrK    int     `json:"e,omitempty"`      // which realistic error value accompanies the verdict
+	DeltaS  int64   `json:"d,omitempty"`      // adv: seconds ...
+	DeltaMs int64   `json:"ms,omitempty"`     // ... plus milliseconds (lifetimes need not be whole seconds)
+	Nested  []c18Op `json:"nested,omitempty"` // operations that happen while this query's probe is in flight
 }
 
 func (o c18Op) String() string {
 	switch o.Kind {
 	case "adv":
-		return fmt.Sprintf("adv(%ds)", o.DeltaS)
+		return fmt.Sprintf("adv(%v)", o.delta())
 	case "clear":
 		return "clear-expired"
 	}
@@ -71,6 +72,11 @@ func (o c18Op) String() string {
 		s += fmt.Sprintf("{while probing: %v}", o.Nested)
 	}
 	return s
+}
+
+// delta is the advance of an adv operation.
+func (o c18Op) delta() time.Duration {
+	return time.Duration(o.DeltaS)*time.Second + time.Duration(o.DeltaMs)*time.Millisecond
 }
 
 type c18Case struct {
@@ -230,7 +236,7 @@ func c18Call(t Tester, addr string, port uint16) (live bool, err error, pv strin
 
 type c18Meas struct {
 	live bool
-	at   int64 // virtual second at which the probe completed
+	at   int64 // virtual millisecond at which the probe completed
 }
 
 type c18Frame struct {
@@ -257,7 +263,7 @@ func (r *c18Run) fail(key, format string, a ...any) {
 	}
 }
 
-func (r *c18Run) age(m c18Meas) time.Duration { return time.Duration(r.vnow-m.at) * time.Second }
+func (r *c18Run) age(m c18Meas) time.Duration { return time.Duration(r.vnow-m.at) * time.Millisecond }
 
 // probe is the function injected as phantomIsLive.
 func (r *c18Run) probe(address string) (bool, error) {
@@ -300,9 +306,12 @@ func (r *c18Run) exec(ops []c18Op, depth int) {
 			}
 			r.query(o, depth)
 		case "adv":
-			r.vnow += o.DeltaS
+			r.vnow += int64(o.delta() / time.Millisecond)
+			if o.DeltaMs%1000 != 0 {
+				r.st["adv-subsecond"] = true
+			}
 			for ci := 0; ci < 2; ci++ {
-				if err := c18Shift(r.sys.cacheOf(ci), time.Duration(o.DeltaS)*time.Second); err != nil {
+				if err := c18Shift(r.sys.cacheOf(ci), o.delta()); err != nil {
 					r.fail("harness", "%v", err)
 					return
 				}
@@ -369,6 +378,15 @@ func (r *c18Run) query(o *c18Op, depth int) {
 	}
 	prev := r.meas[o.Addr]
 	startNow := r.vnow
+	if len(prev) > 0 {
+		// evidence: the query falls between a lifetime that is not a whole number of seconds and
+		// the next whole second of age
+		p := prev[len(prev)-1]
+		pc := c18Ci(p.live)
+		if l, age := s.life[pc], time.Duration(startNow-p.at)*time.Millisecond; s.on[pc] && l > 0 && l%time.Second != 0 && age >= l && age < l.Truncate(time.Second)+time.Second {
+			r.st["query-within-1s-after-fractional-expiry"] = true
+		}
+	}
 	f := &c18Frame{op: o, depth: depth}
 	r.stack = append(r.stack, f)
 	live, err, pv := c18Call(s.t, addr, o.Port)
@@ -459,7 +477,7 @@ func (r *c18Run) query(o *c18Op, depth int) {
 		if len(prev) > 0 {
 			p := prev[len(prev)-1]
 			pc := c18Ci(p.live)
-			expired := !s.on[pc] || time.Duration(startNow-p.at)*time.Second >= s.life[pc]
+			expired := !s.on[pc] || time.Duration(startNow-p.at)*time.Millisecond >= s.life[pc]
 			switch {
 			case expired && s.on[pc]:
 				r.st["reprobe-after-expiry"] = true
@@ -510,6 +528,9 @@ func c18RunCase(c c18Case) (key, msg string, st map[string]bool) {
 		r.st["conf:uncached"] = true
 	}
 	for ci := 0; ci < 2; ci++ {
+		if s.on[ci] && s.life[ci]%time.Second != 0 {
+			r.st["conf:fractional-lifetime"] = true
+		}
 		if s.on[ci] && s.cap[ci] > 0 {
 			r.st["conf:capacity-"+c18ClassName[ci]] = true
 		}
